@@ -29,6 +29,75 @@ UNIT = ("T", ())
 MAX_PATHS = 400
 
 
+_RUST_WHITE_SPACE = set([0x20, 0x85, 0xA0, 0x1680, 0x2028, 0x2029, 0x202F, 0x205F, 0x3000]) | set(range(0x9, 0xE)) | set(range(0x2000, 0x200B))
+
+
+def _ascii(pred):
+    return lambda c: bool(c.isascii() and pred(c))
+
+
+# std predicates on `char` whose value is fixed by the language reference (the Unicode-table ones only for ASCII input)
+CHAR_PREDICATES = {
+    "is_ascii": lambda c: c.isascii(),
+    "is_ascii_alphabetic": _ascii(lambda c: c.isalpha()),
+    "is_ascii_alphanumeric": _ascii(lambda c: c.isalnum()),
+    "is_ascii_digit": _ascii(lambda c: c.isdigit()),
+    "is_ascii_uppercase": _ascii(lambda c: c.isupper()),
+    "is_ascii_lowercase": _ascii(lambda c: c.islower()),
+    "is_ascii_hexdigit": _ascii(lambda c: c in "0123456789abcdefABCDEF"),
+    "is_ascii_whitespace": lambda c: c in " \t\n\x0c\r",
+    "is_ascii_punctuation": _ascii(lambda c: 0x21 <= ord(c) <= 0x7e and not c.isalnum()),
+    "is_ascii_control": lambda c: ord(c) < 0x20 or ord(c) == 0x7f,
+    "is_ascii_graphic": lambda c: 0x21 <= ord(c) <= 0x7e,
+    "is_whitespace": lambda c: ord(c) in _RUST_WHITE_SPACE,
+    "is_control": lambda c: ord(c) < 0x20 or 0x7f <= ord(c) <= 0x9f,
+    "is_alphabetic": lambda c: c.isalpha() if c.isascii() else UNK,
+    "is_alphanumeric": lambda c: c.isalnum() if c.isascii() else UNK,
+    "is_numeric": lambda c: c.isdigit() if c.isascii() else UNK,
+    "is_uppercase": lambda c: c.isupper() if c.isascii() else UNK,
+    "is_lowercase": lambda c: c.islower() if c.isascii() else UNK,
+}
+ASCII_CUTS = (0x9, 0xE, 0x20, 0x21, 0x30, 0x3A, 0x41, 0x47, 0x5B, 0x61, 0x67, 0x7B, 0x7F, 0x80, 0x85, 0x86, 0xA0, 0xA1)
+
+
+def char_classes(bodies, extra=()):
+    """partition of the scalar values such that a function that looks at a character only through comparisons with the character
+    literals occurring in `bodies` and through the std predicates above cannot tell two members of one class apart"""
+    cuts = {0, 0xD800, 0xE000, 0x110000} | set(ASCII_CUTS) | set(extra)
+    for cp in _RUST_WHITE_SPACE:
+        cuts.update((cp, cp + 1))
+    for body in bodies:
+        for n in sir.walk(body):
+            if n.get("k") == "lit" and n.get("t") == "char" and isinstance(n.get("v"), str) and len(n["v"]) == 1:
+                cuts.update((ord(n["v"]), ord(n["v"]) + 1))
+    cuts = sorted(c for c in cuts if 0 <= c <= 0x110000)
+    return [(a, b - 1) for a, b in zip(cuts, cuts[1:]) if not (0xD800 <= a <= 0xDFFF)]
+
+
+def char_predicate_table(fn, idx=None, helpers=None):
+    """[(lo, hi, verdict)] for a `fn(char) -> bool`: verdict True / False / None (not decided) per class"""
+    helpers = helpers or {}
+    pn = [x for x in fn.param_names() if x]
+    if len(pn) != 1:
+        return None
+    it = Interp(idx=idx, inline=helpers)
+    out = []
+    for lo, hi in char_classes([fn.body] + [h.body for h in helpers.values()]):
+        vs = set()
+        for cp in {lo, hi}:
+            it.paths = 0
+            try:
+                outs = it.run(fn.body, {pn[0]: chr(cp)})
+            except TooManyPaths:
+                outs = []
+            if not outs or any(o.tainted or not (o.value is True or o.value is False) for o in outs):
+                vs.add(None)
+            else:
+                vs.update(o.value for o in outs)
+        out.append((lo, hi, vs.pop() if len(vs) == 1 else None))
+    return out
+
+
 class TooManyPaths(Exception):
     pass
 
@@ -300,10 +369,37 @@ class Interp:
             elif h is not None:
                 return [x if isinstance(x, Out) else Out("val", x[0], x[1]) for x in h]
         k = e.get("k")
+        if k in ("call", "mac"):
+            fc = sir.format_call(e)
+            if fc is not None:
+                return [Out("val", self._format_text(fc, st, exact=True), st)]
         m = getattr(self, "_e_" + k, None) if isinstance(k, str) else None
         if m is None:
             return [Out("val", UNK, st)]
         return m(e, st)
+
+    def _format_text(self, pieces, st, exact=False):
+        """text produced by format pieces under the abstract state; holes that are not constants stay as `{spec}` (or make the
+        whole value UNK when exact=True)"""
+        text = ""
+        for p in pieces:
+            if p[0] == "lit":
+                text += p[1]
+                continue
+            spec = p[2] or ""
+            vals = [o.value for o in self.ev(p[1], st) if o.kind == "val"] if p[1] is not None else []
+            v = vals[0] if len(vals) == 1 else UNK
+            if isinstance(v, str) and not spec:
+                text += v
+            elif isinstance(v, str) and len(v) == 1 and spec and spec[-1] in "xX":
+                text += format(ord(v), spec)       # `c as u32` keeps the character as its abstract value
+            elif isinstance(v, int) and not isinstance(v, bool):
+                text += format(v, spec) if spec else str(v)
+            elif exact:
+                return UNK
+            else:
+                text += "{%s}" % ((":" + spec) if spec else "")
+        return text
 
     def _e_lit(self, e, st):
         t = e.get("t")
@@ -842,22 +938,7 @@ class Interp:
         res = []
         wf = sir.write_fmt_call(e)
         if wf is not None:
-            text = ""
-            for p in wf[1]:
-                if p[0] == "lit":
-                    text += p[1]
-                    continue
-                spec = p[2] or ""
-                vals = [o.value for o in self.ev(p[1], st) if o.kind == "val"] if p[1] is not None else []
-                v = vals[0] if len(vals) == 1 else UNK
-                if isinstance(v, str) and not spec:
-                    text += v
-                elif isinstance(v, str) and len(v) == 1 and spec and spec[-1] in "xX":
-                    text += format(ord(v), spec)       # `c as u32` keeps the character as its abstract value
-                elif isinstance(v, int) and not isinstance(v, bool):
-                    text += format(v, spec) if spec else str(v)
-                else:
-                    text += "{%s}" % ((":" + spec) if spec else "")
+            text = self._format_text(wf[1], st)
             return [Out("val", ("Ok", UNIT), st.event(("write", text)))]
         if m in ("push", "write_char") and len(e["args"]) == 1:
             vals = [o.value for o in self.ev(e["args"][0], st) if o.kind == "val"]
@@ -887,6 +968,24 @@ class Interp:
                     res += self.call_closure(("closure", 0, e["args"][0]), [], s)
                 else:
                     res.append(Out("val", v if is_unknown(v) else UNK, s))
+            elif isinstance(v, tuple) and v[:1] == ("R",) and m == "contains" and len(e["args"]) == 1:
+                for o2 in self.ev(e["args"][0], s):
+                    if o2.kind != "val":
+                        res.append(o2)
+                        continue
+                    x = o2.value
+                    if is_unknown(x):
+                        res.append(Out("val", x, o2.st))
+                        continue
+                    try:
+                        r_ = (v[1] is None or v[1] <= x) and (v[2] is None or (x <= v[2] if v[3] else x < v[2]))
+                    except TypeError:
+                        r_ = UNK
+                    res.append(Out("val", r_, o2.st))
+            elif isinstance(v, str) and len(v) == 1 and m in CHAR_PREDICATES and not e["args"]:
+                res.append(Out("val", CHAR_PREDICATES[m](v), s))
+            elif isinstance(v, str) and len(v) == 1 and m in ("to_ascii_uppercase", "to_ascii_lowercase") and not e["args"]:
+                res.append(Out("val", (v.upper() if m.endswith("uppercase") else v.lower()) if v.isascii() else v, s))
             elif m in ("map", "and_then", "map_or", "map_or_else", "is_some_and", "is_none_or", "filter", "then_some", "then", "ok_or", "ok_or_else", "ok"):
                 res += self._option_combinator(e, m, v, s, some, none)
             elif m in ("all", "any") and len(e["args"]) == 1 and e["args"][0].get("k") == "closure":
@@ -980,6 +1079,10 @@ class Interp:
         return [Out("val", UNK, st)]
 
     def _e_range(self, e, st):
+        lo = [o.value for o in self.ev(e["from"], st) if o.kind == "val"] if e.get("from") is not None else [None]
+        hi = [o.value for o in self.ev(e["to"], st) if o.kind == "val"] if e.get("to") is not None else [None]
+        if len(lo) == 1 and len(hi) == 1 and not is_unknown(lo[0]) and not is_unknown(hi[0]):
+            return [Out("val", ("R", lo[0], hi[0], bool(e.get("incl"))), st)]
         return [Out("val", UNK, st)]
 
     def _e_array(self, e, st):
